@@ -49,6 +49,7 @@ VARIABLES
   anyAdded,  \* Destinations._any_added
   buffer,    \* BufferingDestination.messages
   gf,        \* set of global field names
+  reg,       \* exception classes (of the chain E2 < E1 < E0 < Exception) that have an extractor registered
   offered,   \* [Dest -> Seq([m, raised])]   every call made to each destination
   work,      \* stack (top = last) of pending internal steps of the call in progress
   call,      \* [c, v]: context of the public call in progress (0 = none) and what it will return
@@ -60,9 +61,9 @@ VARIABLES
              \*         the first add, nser: serialization failures, ntb: tracebacks expected, fail: keys not delivered]
   hist       \* history of calls and fault choices (for replay; hidden by VIEW in model checking)
 
-vars == <<acts, cur, blocks, born, base, nuuid, ids, dests, anyAdded, buffer, gf, offered, work,
+vars == <<acts, cur, blocks, born, base, nuuid, ids, dests, anyAdded, buffer, gf, reg, offered, work,
           call, ret, nfaults, nmsgs, nodes, dev, gh, hist>>
-view == <<acts, cur, blocks, born, base, nuuid, ids, dests, anyAdded, buffer, gf, offered, work,
+view == <<acts, cur, blocks, born, base, nuuid, ids, dests, anyAdded, buffer, gf, reg, offered, work,
           call, ret, nfaults, nmsgs, nodes, dev, gh>>
 
 Ctx  == 1..NCtx
@@ -72,17 +73,25 @@ Dest == 1..NDest
 (* Types of actions and messages.  "A","m" untyped; "T","M" declared with    *)
 (* ActionType / MessageType (harness field serializers on x / y).            *)
 ActTypes == {"A", "T"}
-MsgTypes == {"m", "M"}
+MsgTypes == {"m", "M", "h", "N", "N0"}   \* "N": MessageType declared with fields(n=int); "N0": the same type logged WITHOUT its field       \* "h": a message whose field value is hostile (not JSON-able, str()/repr() raise, ...)
 IsTyped(ty) == ty \in {"T", "M", "eliot:traceback"}
 StartFields(ty)   == IF ty = "T" THEN {"x"} ELSE {"sa"}
-MsgFields(ty)     == IF ty = "M" THEN {"x"} ELSE {"mf"}
+MsgFields(ty)     == CASE ty = "M" -> {"x"} [] ty = "h" -> {"hv"} [] ty = "N" -> {"n"} [] ty = "N0" -> {} [] OTHER -> {"mf"}
 \* declared fields whose serializer is harness-controlled (may raise), per message kind
 Declared(m) == IF m.ty = "T" /\ m.k = "start" THEN {"x"}
                ELSE IF m.ty = "T" /\ m.k = "end" /\ m.st = "succeeded" THEN {"y"}
                ELSE IF m.ty = "M" THEN {"x"} ELSE {}
+\* declared fields with the library's own (identity) serializers: cannot raise, but must be present
+DeclaredPlain(m) == IF m.ty \in {"N", "N0"} THEN {"n"} ELSE {}
 \* outcomes of a block / finish: "ok", or an exception kind
-Outcomes == {"ok", "exc", "ext", "extraise"}
-ExtraFields(o) == IF o = "ext" THEN {"xf"} ELSE {}
+\*   "exc"  an exception whose class chain has no extractor      "extraise"  its extractor raises
+\*   "x0" "x1" "x2"  an instance of E0 / E1 (subclass of E0) / E2 (subclass of E1): the fields come from the
+\*   extractor registered for the NEAREST class in its MRO, at the moment it is looked up
+Outcomes == {"ok", "exc", "x0", "x1", "x2", "extraise"}
+ExtOutcomes == {"x0", "x1", "x2", "extraise"}
+Chain(o) == CASE o = "x2" -> <<"E2", "E1", "E0">> [] o = "x1" -> <<"E1", "E0">> [] o = "x0" -> <<"E0">> [] OTHER -> <<>>
+FieldOf(k) == CASE k = "E0" -> "e0" [] k = "E1" -> "e1" [] k = "E2" -> "e2"
+ExtraFieldsIn(r, o) == LET s == SelectSeq(Chain(o), LAMBDA k : k \in r) IN IF s = <<>> THEN {} ELSE {FieldOf(s[1])}
 
 NoCall == [c |-> 0, v |-> "none"]
 Top    == work[Len(work)]
@@ -129,7 +138,7 @@ AddNode(par, kind, ty, st) == Append(nodes, [par |-> par, kind |-> kind, ty |-> 
 Init ==
   /\ acts = <<>> /\ cur = [c \in Ctx |-> 0] /\ blocks = [c \in Ctx |-> <<>>]
   /\ born = [c \in Ctx |-> c = 1] /\ base = [c \in Ctx |-> 0] /\ nuuid = 0 /\ ids = <<>>
-  /\ dests = InitDests /\ anyAdded = (InitDests # <<>>) /\ buffer = <<>> /\ gf = {}
+  /\ dests = InitDests /\ anyAdded = (InitDests # <<>>) /\ buffer = <<>> /\ gf = {} /\ reg = {}
   /\ offered = [d \in Dest |-> <<>>] /\ work = <<>> /\ call = NoCall /\ ret = NoCall
   /\ nfaults = 0 /\ nmsgs = 0 /\ nodes = <<>> /\ dev = {} /\ hist = <<>>
   /\ gh = [expect |-> [d \in Dest |-> <<>>], pre |-> <<>>, nser |-> 0, ntb |-> 0, fail |-> {},
@@ -159,7 +168,7 @@ StartAction(c, ty) ==
   /\ nodes' = AddNode(NodeOfCur(c), "act", ty, "started")
   /\ nmsgs' = nmsgs + 1
   /\ Begin(c, "ok", [op |-> "StartAction", c |-> c, ty |-> ty])
-  /\ UNCHANGED <<cur, blocks, born, base, ids, dests, anyAdded, buffer, gf, offered, ret, nfaults, dev, gh>>
+  /\ UNCHANGED <<cur, blocks, born, base, ids, dests, anyAdded, buffer, gf, reg, offered, ret, nfaults, dev, gh>>
 
 \* start_task(...) / ActionType.as_task: always a new tree
 StartTask(c, ty) ==
@@ -171,7 +180,7 @@ StartTask(c, ty) ==
   /\ nodes' = AddNode(0, "act", ty, "started")
   /\ nmsgs' = nmsgs + 1
   /\ Begin(c, "ok", [op |-> "StartTask", c |-> c, ty |-> ty])
-  /\ UNCHANGED <<cur, blocks, born, base, ids, dests, anyAdded, buffer, gf, offered, ret, nfaults, dev, gh>>
+  /\ UNCHANGED <<cur, blocks, born, base, ids, dests, anyAdded, buffer, gf, reg, offered, ret, nfaults, dev, gh>>
 
 \* with a:  (Action.__enter__)  /  with a.context():  /  a.run(f)
 CanEnter(c, kind, a) ==
@@ -183,12 +192,12 @@ Enter(c, kind, a) ==
   /\ cur' = [cur EXCEPT ![c] = a]
   /\ acts' = IF kind = "with" THEN [acts EXCEPT ![a].inwith = TRUE] ELSE acts
   /\ call' = [c |-> c, v |-> "ok"] /\ hist' = Append(hist, [op |-> "Enter", c |-> c, kind |-> kind, a |-> a])
-  /\ UNCHANGED <<born, base, nuuid, ids, dests, anyAdded, buffer, gf, offered, work, ret, nfaults, nmsgs, nodes, dev, gh>>
+  /\ UNCHANGED <<born, base, nuuid, ids, dests, anyAdded, buffer, gf, reg, offered, work, ret, nfaults, nmsgs, nodes, dev, gh>>
 
 \* Action.finish(exception): guarded by _finished; extractor first, then the end message
 FinishWork(A, a, o) ==
   IF A[a].fin THEN <<>>
-  ELSE IF o = "extraise" THEN <<[t |-> "endmsg", a |-> a, o |-> o], [t |-> "tbmsg"]>>
+  ELSE IF o = "extraise" THEN <<[t |-> "endmsg", a |-> a, o |-> o], [t |-> "tbmsg", o |-> "exc"]>>
   ELSE <<[t |-> "endmsg", a |-> a, o |-> o]>>
 MarkFin(A, a) == [A EXCEPT ![a].fin = TRUE]
 NodeSt(N, A, a, o) == IF A[a].fin THEN N
@@ -210,7 +219,7 @@ Exit(c, o) ==
      /\ gh' = IF b.kind = "with" /\ ~acts[b.act].fin /\ o = "extraise" THEN [gh EXCEPT !.ntb = @ + 1] ELSE gh
      /\ call' = [c |-> c, v |-> IF o = "ok" THEN "ok" ELSE "app"]
      /\ hist' = Append(hist, [op |-> "Exit", c |-> c, o |-> o, kind |-> b.kind])
-  /\ UNCHANGED <<born, base, nuuid, ids, dests, anyAdded, buffer, gf, offered, ret, nfaults, nmsgs, dev>>
+  /\ UNCHANGED <<born, base, nuuid, ids, dests, anyAdded, buffer, gf, reg, offered, ret, nfaults, nmsgs, dev>>
 
 \* explicit a.finish() / a.finish(exception) from any context; a second finish emits nothing
 CanFinish(c, a) == Idle /\ born[c] /\ a \in DOMAIN acts
@@ -221,7 +230,7 @@ Finish(c, a, o) ==
   /\ nodes' = NodeSt(nodes, acts, a, o)
   /\ gh' = IF ~acts[a].fin /\ o = "extraise" THEN [gh EXCEPT !.ntb = @ + 1] ELSE gh
   /\ Begin(c, "ok", [op |-> "Finish", c |-> c, a |-> a, o |-> o])
-  /\ UNCHANGED <<cur, blocks, born, base, nuuid, ids, dests, anyAdded, buffer, gf, offered, ret, nfaults, nmsgs, dev>>
+  /\ UNCHANGED <<cur, blocks, born, base, nuuid, ids, dests, anyAdded, buffer, gf, reg, offered, ret, nfaults, nmsgs, dev>>
 
 \* log_message(ty, ...) / MessageType.log / Message.write: in the current action, or a task of its own
 LogAllocMsg(c, ty, f, rep) ==      \* <<acts', nuuid', msg>>
@@ -236,7 +245,7 @@ Log(c, ty) ==
   /\ nodes' = AddNode(NodeOfCur(c), "msg", ty, "")
   /\ nmsgs' = nmsgs + 1
   /\ Begin(c, "ok", [op |-> "Log", c |-> c, ty |-> ty])
-  /\ UNCHANGED <<cur, blocks, born, base, ids, dests, anyAdded, buffer, gf, offered, ret, nfaults, dev, gh>>
+  /\ UNCHANGED <<cur, blocks, born, base, ids, dests, anyAdded, buffer, gf, reg, offered, ret, nfaults, dev, gh>>
 
 \* a.log(ty, ...) on an explicit, unfinished action (whatever the current context)
 CanActionLog(c, a) == Idle /\ born[c] /\ a \in DOMAIN acts /\ ~acts[a].fin
@@ -247,22 +256,22 @@ ActionLog(c, a, ty) ==
   /\ nodes' = AddNode(acts[a].node, "msg", ty, "")
   /\ nmsgs' = nmsgs + 1
   /\ Begin(c, "ok", [op |-> "ActionLog", c |-> c, a |-> a, ty |-> ty])
-  /\ UNCHANGED <<cur, blocks, born, base, nuuid, ids, dests, anyAdded, buffer, gf, offered, ret, nfaults, dev, gh>>
+  /\ UNCHANGED <<cur, blocks, born, base, nuuid, ids, dests, anyAdded, buffer, gf, reg, offered, ret, nfaults, dev, gh>>
 
 \* a.add_success_fields(f=...)
 AddSuccess(c, a, f) ==
   /\ Idle /\ born[c] /\ a \in DOMAIN acts /\ ~acts[a].fin /\ f \notin acts[a].succ
   /\ acts' = [acts EXCEPT ![a].succ = @ \cup {f}]
   /\ Begin(c, "ok", [op |-> "AddSuccess", c |-> c, a |-> a, f |-> f])
-  /\ UNCHANGED <<cur, blocks, born, base, nuuid, ids, dests, anyAdded, buffer, gf, offered, work, ret, nfaults, nmsgs, nodes, dev, gh>>
+  /\ UNCHANGED <<cur, blocks, born, base, nuuid, ids, dests, anyAdded, buffer, gf, reg, offered, work, ret, nfaults, nmsgs, nodes, dev, gh>>
 
 \* write_traceback() inside an except block
-WriteTraceback(c) ==
+WriteTraceback(c, o) ==
   /\ CanLog(c) /\ Room
-  /\ work' = <<[t |-> "tbmsg"]>>
+  /\ work' = <<[t |-> "tbmsg", o |-> o]>>
   /\ gh' = [gh EXCEPT !.ntb = @ + 1]
-  /\ Begin(c, "ok", [op |-> "WriteTraceback", c |-> c])
-  /\ UNCHANGED <<acts, cur, blocks, born, base, nuuid, ids, dests, anyAdded, buffer, gf, offered, ret, nfaults, nmsgs, nodes, dev>>
+  /\ Begin(c, "ok", [op |-> "WriteTraceback", c |-> c, o |-> o])
+  /\ UNCHANGED <<acts, cur, blocks, born, base, nuuid, ids, dests, anyAdded, buffer, gf, reg, offered, ret, nfaults, nmsgs, nodes, dev>>
 
 \* current_action().serialize_task_id(): reserves a fresh position
 CanSerializeId(c) == Idle /\ born[c] /\ cur[c] # 0 /\ ActOK(c)
@@ -273,7 +282,7 @@ SerializeId(c) ==
   \* the remote action will sit where the id was taken: a placeholder keeps the sibling order of the performed tree
   /\ nodes' = AddNode(acts[cur[c]].node, "act", "eliot:remote_task", "unstarted")
   /\ Begin(c, "ok", [op |-> "SerializeId", c |-> c])
-  /\ UNCHANGED <<cur, blocks, born, base, nuuid, dests, anyAdded, buffer, gf, offered, work, ret, nfaults, nmsgs, dev, gh>>
+  /\ UNCHANGED <<cur, blocks, born, base, nuuid, dests, anyAdded, buffer, gf, reg, offered, work, ret, nfaults, nmsgs, dev, gh>>
 
 \* Action.continue_task(task_id=ids[i]) in any context (thread, process); each id is continued at most once
 CanContinue(c, i) == Idle /\ born[c] /\ i \in DOMAIN ids /\ ~ids[i].used
@@ -286,7 +295,7 @@ ContinueTask(c, i) ==
   /\ nodes' = [nodes EXCEPT ![ids[i].node].st = "started"]
   /\ nmsgs' = nmsgs + 1
   /\ Begin(c, "ok", [op |-> "ContinueTask", c |-> c, i |-> i])
-  /\ UNCHANGED <<cur, blocks, born, base, nuuid, dests, anyAdded, buffer, gf, offered, ret, nfaults, dev, gh>>
+  /\ UNCHANGED <<cur, blocks, born, base, nuuid, dests, anyAdded, buffer, gf, reg, offered, ret, nfaults, dev, gh>>
 
 \* a new thread starts with no current action; an asyncio task inherits the creator's
 Spawn(c, c2, kind) ==
@@ -296,7 +305,14 @@ Spawn(c, c2, kind) ==
   /\ base' = [base EXCEPT ![c2] = IF kind = "task" THEN cur[c] ELSE 0]
   /\ call' = [c |-> c, v |-> "ok"]
   /\ hist' = Append(hist, [op |-> "Spawn", c |-> c, c2 |-> c2, kind |-> kind])
-  /\ UNCHANGED <<acts, blocks, nuuid, ids, dests, anyAdded, buffer, gf, offered, work, ret, nfaults, nmsgs, nodes, dev, gh>>
+  /\ UNCHANGED <<acts, blocks, nuuid, ids, dests, anyAdded, buffer, gf, reg, offered, work, ret, nfaults, nmsgs, nodes, dev, gh>>
+
+\* register_exception_extractor(class, f)
+Register(c, k) ==
+  /\ Idle /\ born[c] /\ k \notin reg
+  /\ reg' = reg \cup {k}
+  /\ Begin(c, "ok", [op |-> "Register", c |-> c, k |-> k])
+  /\ UNCHANGED <<acts, cur, blocks, born, base, nuuid, ids, dests, anyAdded, buffer, gf, offered, work, ret, nfaults, nmsgs, nodes, dev, gh>>
 
 \* add_destinations(*S): the first call drains the buffer into exactly these destinations
 AddDests(c, S) ==
@@ -308,20 +324,20 @@ AddDests(c, S) ==
   /\ gh' = IF anyAdded THEN gh
             ELSE [gh EXCEPT !.expect = [d \in Dest |-> IF d \in S THEN LastN(gh.pre, Cap) ELSE gh.expect[d]]]
   /\ Begin(c, "ok", [op |-> "AddDests", c |-> c, S |-> S])
-  /\ UNCHANGED <<acts, cur, blocks, born, base, nuuid, ids, buffer, gf, offered, ret, nfaults, nmsgs, nodes, dev>>
+  /\ UNCHANGED <<acts, cur, blocks, born, base, nuuid, ids, buffer, gf, reg, offered, ret, nfaults, nmsgs, nodes, dev>>
 
 RemoveDest(c, d) ==
   /\ Idle /\ born[c] /\ d \in Range(dests)
   /\ dests' = SelectSeq(dests, LAMBDA x : x # d)
   /\ gh' = [gh EXCEPT !.gone = @ \cup {d}]
   /\ Begin(c, "ok", [op |-> "RemoveDest", c |-> c, d |-> d])
-  /\ UNCHANGED <<acts, cur, blocks, born, base, nuuid, ids, anyAdded, buffer, gf, offered, work, ret, nfaults, nmsgs, nodes, dev>>
+  /\ UNCHANGED <<acts, cur, blocks, born, base, nuuid, ids, anyAdded, buffer, gf, reg, offered, work, ret, nfaults, nmsgs, nodes, dev>>
 
 AddGlobal(c, f) ==
   /\ Idle /\ born[c] /\ f \notin gf
   /\ gf' = gf \cup {f}
   /\ Begin(c, "ok", [op |-> "AddGlobal", c |-> c, f |-> f])
-  /\ UNCHANGED <<acts, cur, blocks, born, base, nuuid, ids, dests, anyAdded, buffer, offered, work, ret, nfaults, nmsgs, nodes, dev, gh>>
+  /\ UNCHANGED <<acts, cur, blocks, born, base, nuuid, ids, dests, anyAdded, buffer, reg, offered, work, ret, nfaults, nmsgs, nodes, dev, gh>>
 
 -----------------------------------------------------------------------------
 (* INTERNAL STEPS of the call in progress (c = call.c)                      *)
@@ -335,26 +351,26 @@ EndMsg ==
          m == IF o = "ok"
               THEN Msg(acts[a].u, LevelIn(acts, a), "end", acts[a].ty, "succeeded", acts[a].succ, "")
               ELSE Msg(acts[a].u, LevelIn(acts, a), "end", acts[a].ty, "failed",
-                       {"exception", "reason"} \cup ExtraFields(o), "")
+                       {"exception", "reason"} \cup ExtraFieldsIn(reg, o), "")
      IN /\ acts' = AllocIn(acts, a) /\ work' = ReplaceTop(WriteItem(m))
   /\ nmsgs' = nmsgs + 1
-  /\ UNCHANGED <<cur, blocks, born, base, nuuid, ids, dests, anyAdded, buffer, gf, offered, call, ret, nfaults, nodes, dev, gh, hist>>
+  /\ UNCHANGED <<cur, blocks, born, base, nuuid, ids, dests, anyAdded, buffer, gf, reg, offered, call, ret, nfaults, nodes, dev, gh, hist>>
 
 \* Logger.write: copy, run the declared fields' serializers (a step that may raise), then send
 NeedsSer(m) == Declared(m) # {} /\ Declared(m) \subseteq m.f
-MustFail(m) == Declared(m) # {} /\ ~(Declared(m) \subseteq m.f)          \* declared field missing -> KeyError
+MustFail(m) == ~((Declared(m) \cup DeclaredPlain(m)) \subseteq m.f)     \* declared field missing -> KeyError
 WritePlain ==                                                          \* nothing that can fail
   /\ Busy /\ Top.t = "write" /\ ~NeedsSer(Top.m) /\ ~MustFail(Top.m)
   /\ work' = ReplaceTop(SendItem(Top.m))
   /\ gh' = GhostSent(gh, Top.m)
-  /\ UNCHANGED <<acts, cur, blocks, born, base, nuuid, ids, dests, anyAdded, buffer, gf, offered, call, ret, nfaults, nmsgs, nodes, dev, hist>>
-SerFailWork == Append(Append(Pop, [t |-> "sfmsg"]), [t |-> "tbmsg"])    \* traceback first, then serialization_failure
+  /\ UNCHANGED <<acts, cur, blocks, born, base, nuuid, ids, dests, anyAdded, buffer, gf, reg, offered, call, ret, nfaults, nmsgs, nodes, dev, hist>>
+SerFailWork == Append(Append(Pop, [t |-> "sfmsg"]), [t |-> "tbmsg", o |-> "exc"])    \* traceback first, then serialization_failure
 WriteMissing ==
   /\ Busy /\ Top.t = "write" /\ MustFail(Top.m)
   /\ work' = SerFailWork
   /\ gh' = [gh EXCEPT !.nser = @ + 1, !.ntb = @ + 1, !.fail = @ \cup {Key(Top.m)}]
   /\ dev' = dev \cup {"SerFail"}
-  /\ UNCHANGED <<acts, cur, blocks, born, base, nuuid, ids, dests, anyAdded, buffer, gf, offered, call, ret, nfaults, nmsgs, nodes, hist>>
+  /\ UNCHANGED <<acts, cur, blocks, born, base, nuuid, ids, dests, anyAdded, buffer, gf, reg, offered, call, ret, nfaults, nmsgs, nodes, hist>>
 Serialize(fail) ==
   /\ Busy /\ Top.t = "write" /\ NeedsSer(Top.m)
   /\ (fail => nfaults < MaxFaults)
@@ -364,7 +380,7 @@ Serialize(fail) ==
   /\ gh' = IF fail THEN [gh EXCEPT !.nser = @ + 1, !.ntb = @ + 1, !.fail = @ \cup {Key(Top.m)}]
             ELSE GhostSent(gh, Top.m)
   /\ dev' = IF fail THEN dev \cup {"SerFail"} ELSE dev
-  /\ UNCHANGED <<acts, cur, blocks, born, base, nuuid, ids, dests, anyAdded, buffer, gf, offered, call, ret, nmsgs, nodes>>
+  /\ UNCHANGED <<acts, cur, blocks, born, base, nuuid, ids, dests, anyAdded, buffer, gf, reg, offered, call, ret, nmsgs, nodes>>
 
 \* messages the library itself logs in "the current context": traceback, serialization failure, destination failure.
 \* NAMED DEVIATION: when the current action is already finished the code still allocates in it.
@@ -378,8 +394,8 @@ LibMsg(t, ty, f, rep) ==
   /\ dev' = IF IntoFinished THEN dev \cup {"IntoFinished"} ELSE dev
   /\ nodes' = AddNode(NodeOfCur(call.c), "msg", ty, "")
   /\ nmsgs' = nmsgs + 1
-  /\ UNCHANGED <<cur, blocks, born, base, ids, dests, anyAdded, buffer, gf, offered, call, ret, nfaults, hist>>
-TbMsg == LibMsg("tbmsg", "eliot:traceback", {"reason", "traceback", "exception"}, "tb")
+  /\ UNCHANGED <<cur, blocks, born, base, ids, dests, anyAdded, buffer, gf, reg, offered, call, ret, nfaults, hist>>
+TbMsg == LibMsg("tbmsg", "eliot:traceback", {"reason", "traceback", "exception"} \cup ExtraFieldsIn(reg, Top.o), "tb")
 SfMsg == LibMsg("sfmsg", "eliot:serialization_failure", {"message"}, "sf")
 
 \* Destinations.send before any destination was added: the buffering destination keeps the last Cap messages
@@ -387,7 +403,7 @@ BufferAppend ==
   /\ Busy /\ Top.t = "send" /\ ~anyAdded
   /\ buffer' = LastN(Append(buffer, Top.m), Cap)
   /\ work' = Pop
-  /\ UNCHANGED <<acts, cur, blocks, born, base, nuuid, ids, dests, anyAdded, gf, offered, call, ret, nfaults, nmsgs, nodes, dev, gh, hist>>
+  /\ UNCHANGED <<acts, cur, blocks, born, base, nuuid, ids, dests, anyAdded, gf, reg, offered, call, ret, nfaults, nmsgs, nodes, dev, gh, hist>>
 
 \* one iteration of the first loop of send(): the next destination is called and may raise
 Pending(it) == SelectSeq(dests, LAMBDA d : d \notin it.done)
@@ -400,11 +416,22 @@ Deliver(d, raise) ==
                                    !.errs = IF raise /\ Top.m.rep # "dest" THEN Append(@, d) ELSE @])
   /\ hist' = Append(hist, [op |-> "Deliver", d |-> d, raise |-> raise])
   /\ nfaults' = IF raise THEN nfaults + 1 ELSE nfaults
-  /\ UNCHANGED <<acts, cur, blocks, born, base, nuuid, ids, dests, anyAdded, buffer, gf, call, ret, nmsgs, nodes, dev, gh>>
+  /\ UNCHANGED <<acts, cur, blocks, born, base, nuuid, ids, dests, anyAdded, buffer, gf, reg, call, ret, nmsgs, nodes, dev, gh>>
+\* a destination raises something that is not an Exception (KeyboardInterrupt while blocked in a write, ...): nothing
+\* catches it, the rest of the call is abandoned and it reaches the application.  Outside C07/C08's quantifiers;
+\* modelled because the action context must be restored all the same (C04).
+DeliverAbort(d) ==
+  /\ CanDeliver /\ d \in NextDests /\ nfaults < MaxFaults
+  /\ offered' = [offered EXCEPT ![d] = Append(@, [m |-> Top.m, raised |-> TRUE])]
+  /\ work' = <<>> /\ call' = [call EXCEPT !.v = "abort"]
+  /\ dev' = dev \cup {"Abort"}
+  /\ hist' = Append(hist, [op |-> "Deliver", d |-> d, raise |-> TRUE, abort |-> TRUE])
+  /\ nfaults' = nfaults + 1
+  /\ UNCHANGED <<acts, cur, blocks, born, base, nuuid, ids, dests, anyAdded, buffer, gf, reg, ret, nmsgs, nodes, gh>>
 SendDone ==
   /\ Busy /\ Top.t = "send" /\ anyAdded /\ Pending(Top) = <<>>
   /\ work' = IF Top.errs = <<>> THEN Pop ELSE ReplaceTop([t |-> "report", errs |-> Top.errs, j |-> 1])
-  /\ UNCHANGED <<acts, cur, blocks, born, base, nuuid, ids, dests, anyAdded, buffer, gf, offered, call, ret, nfaults, nmsgs, nodes, dev, gh, hist>>
+  /\ UNCHANGED <<acts, cur, blocks, born, base, nuuid, ids, dests, anyAdded, buffer, gf, reg, offered, call, ret, nfaults, nmsgs, nodes, dev, gh, hist>>
 \* one iteration of the second loop of send(): one eliot:destination_failure per collected error, via log_message
 Report ==
   /\ Busy /\ Top.t = "report" /\ Top.j <= Len(Top.errs)
@@ -415,24 +442,24 @@ Report ==
   /\ dev' = IF IntoFinished THEN dev \cup {"IntoFinished"} ELSE dev
   /\ nodes' = AddNode(NodeOfCur(call.c), "msg", "eliot:destination_failure", "")
   /\ nmsgs' = nmsgs + 1
-  /\ UNCHANGED <<cur, blocks, born, base, ids, dests, anyAdded, buffer, gf, offered, call, ret, nfaults, hist>>
+  /\ UNCHANGED <<cur, blocks, born, base, ids, dests, anyAdded, buffer, gf, reg, offered, call, ret, nfaults, hist>>
 ReportDone ==
   /\ Busy /\ Top.t = "report" /\ Top.j > Len(Top.errs)
   /\ work' = Pop
-  /\ UNCHANGED <<acts, cur, blocks, born, base, nuuid, ids, dests, anyAdded, buffer, gf, offered, call, ret, nfaults, nmsgs, nodes, dev, gh, hist>>
+  /\ UNCHANGED <<acts, cur, blocks, born, base, nuuid, ids, dests, anyAdded, buffer, gf, reg, offered, call, ret, nfaults, nmsgs, nodes, dev, gh, hist>>
 \* first add_destinations: re-send every buffered message through send() (global fields merged again)
 Redeliver ==
   /\ Busy /\ Top.t = "redeliver"
   /\ work' = IF Top.j <= Len(buffer)
              THEN Append(ReplaceTop([Top EXCEPT !.j = @ + 1]), SendItem(buffer[Top.j]))
              ELSE Pop
-  /\ UNCHANGED <<acts, cur, blocks, born, base, nuuid, ids, dests, anyAdded, buffer, gf, offered, call, ret, nfaults, nmsgs, nodes, dev, gh, hist>>
+  /\ UNCHANGED <<acts, cur, blocks, born, base, nuuid, ids, dests, anyAdded, buffer, gf, reg, offered, call, ret, nfaults, nmsgs, nodes, dev, gh, hist>>
 
 \* the public call returns to the application
 Return ==
   /\ call.c # 0 /\ work = <<>>
   /\ ret' = call /\ call' = NoCall
-  /\ UNCHANGED <<acts, cur, blocks, born, base, nuuid, ids, dests, anyAdded, buffer, gf, offered, work, nfaults, nmsgs, nodes, dev, gh, hist>>
+  /\ UNCHANGED <<acts, cur, blocks, born, base, nuuid, ids, dests, anyAdded, buffer, gf, reg, offered, work, nfaults, nmsgs, nodes, dev, gh, hist>>
 
 \* internal steps that involve no choice and no harness-visible event
 Silent == EndMsg \/ WritePlain \/ WriteMissing \/ TbMsg \/ SfMsg \/ BufferAppend \/ SendDone \/ Report \/ ReportDone \/ Redeliver
@@ -445,6 +472,7 @@ F(x) == x \in Feat
 Next ==
   \/ Silent \/ Return
   \/ \E d \in Dest, r \in BOOLEAN : Deliver(d, r) /\ (r => F("dfault"))
+  \/ F("abort") /\ \E d \in Dest : DeliverAbort(d)
   \/ \E r \in BOOLEAN : Serialize(r) /\ (r => F("sfault"))
   \/ \E c \in Ctx :
        \/ \E ty \in ActTypes : (ty = "T" => F("typed")) /\ StartAction(c, ty)
@@ -452,12 +480,13 @@ Next ==
        \/ \E a \in DOMAIN acts : \/ Enter(c, "with", a)
                                  \/ F("ctx") /\ Enter(c, "ctx", a)
                                  \/ F("run") /\ Enter(c, "run", a)
-                                 \/ F("finish") /\ \E o \in Outcomes : (o \in {"ext", "extraise"} => F("ext")) /\ Finish(c, a, o)
+                                 \/ F("finish") /\ \E o \in Outcomes : (o \in ExtOutcomes => F("ext")) /\ Finish(c, a, o)
                                  \/ F("alog") /\ ActionLog(c, a, "m")
                                  \/ F("succ") /\ \E f \in {"y", "z"} : AddSuccess(c, a, f)
-       \/ \E o \in Outcomes : (o \in {"ext", "extraise"} => F("ext")) /\ Exit(c, o)
-       \/ \E ty \in MsgTypes : (ty = "M" => F("typed")) /\ Log(c, ty)
-       \/ F("tb") /\ WriteTraceback(c)
+       \/ \E o \in Outcomes : (o \in ExtOutcomes => F("ext")) /\ Exit(c, o)
+       \/ \E ty \in MsgTypes : (ty \in {"M", "N", "N0"} => F("typed")) /\ (ty = "h" => F("hostile")) /\ Log(c, ty)
+       \/ F("tb") /\ \E o \in {"exc", "x1"} : (o = "x1" => F("ext")) /\ WriteTraceback(c, o)
+       \/ F("ext") /\ \E k \in {"E0", "E1", "E2"} : Register(c, k)
        \/ F("remote") /\ (SerializeId(c) \/ \E i \in DOMAIN ids : ContinueTask(c, i))
        \/ F("spawn") /\ \E c2 \in Ctx, k \in {"thread", "task"} : Spawn(c, c2, k)
        \/ F("dests") /\ (\/ \E S \in SUBSET Dest : AddDests(c, S)
@@ -474,7 +503,7 @@ Keys(d)     == [i \in DOMAIN offered[d] |-> Key(offered[d][i].m)]
 \* a destination that accepted every message and was registered all along
 Healthy(d)  == /\ \A i \in DOMAIN offered[d] : ~offered[d][i].raised
                /\ d \in gh.init /\ d \in Range(dests) /\ d \notin gh.gone
-NoSerFail   == "SerFail" \notin dev
+NoSerFail   == "SerFail" \notin dev /\ "Abort" \notin dev
 NoDeviation == "IntoFinished" \notin dev
 IsPrefix(p, s) == Len(p) <= Len(s) /\ SubSeq(s, 1, Len(p)) = p
 \* indices of the messages of S that lie inside action a (strictly below its level, same task)
@@ -494,7 +523,7 @@ C02_StartAtOne == (Idle /\ NoSerFail) => \A d \in Dest : Healthy(d) =>
 EndIsLast == \A d \in Dest : Healthy(d) =>
                \A a \in DOMAIN acts : \A e \in Own(Stream(d), a, "end") :
                   \A p \in PosIn(Stream(d), a) : p <= Last(Stream(d)[e].lv)
-C02_EndIsLast == (Idle /\ NoDeviation) => EndIsLast
+C02_EndIsLast == (Idle /\ NoDeviation /\ "Abort" \notin dev) => EndIsLast
 C02_EndIsLast_Strict == Idle => EndIsLast        \* expected to FAIL: finding F2 (MC_F2.cfg)
 \* every message sits inside an action whose start was emitted before it
 C02_Enclosed == NoSerFail => \A d \in Dest : Healthy(d) =>
@@ -516,9 +545,9 @@ C03_OneStartOneEnd == (Idle /\ NoSerFail) => \A d \in Dest : Healthy(d) => \A a 
 C03_StatusTruthful == (Idle /\ NoSerFail) => \A d \in Dest : Healthy(d) => \A a \in DOMAIN acts :
                         \A e \in Own(Stream(d), a, "end") : Stream(d)[e].st = nodes[acts[a].node].st
 C03_FieldPlacement == \A d \in Dest : \A i \in DOMAIN offered[d] : LET m == Stream(d)[i] IN
-                        /\ (m.k = "start" /\ m.rep = "") => m.f \cap {"y", "z", "exception", "reason", "xf"} = {}
+                        /\ (m.k = "start" /\ m.rep = "") => m.f \cap {"y", "z", "exception", "reason", "e0", "e1", "e2"} = {}
                         /\ (m.k = "end" /\ m.st = "failed") => m.f \cap {"y", "z", "sa", "x"} = {} /\ {"exception", "reason"} \subseteq m.f
-                        /\ (m.k = "end" /\ m.st = "succeeded") => m.f \cap {"sa", "x", "exception", "reason", "xf"} = {}
+                        /\ (m.k = "end" /\ m.st = "succeeded") => m.f \cap {"sa", "x", "exception", "reason", "e0", "e1", "e2"} = {}
 
 ---- (* C04 / C05: the context variable *)
 C04_Inside == \A c \in Ctx : cur[c] = IF blocks[c] = <<>> THEN base[c] ELSE Last(blocks[c]).act
@@ -531,20 +560,20 @@ C06_IdFresh == /\ \A i, j \in DOMAIN ids : i # j => <<ids[i].u, ids[i].lv>> # <<
                /\ \A i \in DOMAIN ids : \A d \in Dest : \A j \in DOMAIN offered[d] : Keys(d)[j] # <<ids[i].u, ids[i].lv>>
 
 ---- (* C07: calls return normally (or with the application's own exception) *)
-C07_NeverRaises == ret.v \in {"none", "ok", "app"}
+C07_NeverRaises == ret.v \in {"none", "ok", "app"} \/ (ret.v = "abort" /\ "Abort" \in dev)
 
 ---- (* C08 / C12: every destination is offered exactly what it should be, once, in order *)
-C08_OnceEachInOrder == Idle => \A d \in Dest : Keys(d) = gh.expect[d]
+C08_OnceEachInOrder == (Idle /\ "Abort" \notin dev) => \A d \in Dest : Keys(d) = gh.expect[d]
 RaisedCount == Cardinality({<<d, i>> \in Dest \X (1..(MaxMsgs + 2 * MaxFaults + 2)) :
                               i \in DOMAIN offered[d] /\ offered[d][i].raised /\ offered[d][i].m.rep # "dest"})
 ReportKeys  == UNION {{Keys(d)[i] : i \in {i \in DOMAIN offered[d] : offered[d][i].m.rep = "dest"}} : d \in Dest}
-C08_OneReportPerFailure == (Idle /\ anyAdded /\ dests # <<>>) => Cardinality(ReportKeys) = RaisedCount
+C08_OneReportPerFailure == (Idle /\ anyAdded /\ dests # <<>> /\ "Abort" \notin dev) => Cardinality(ReportKeys) = RaisedCount
 C12_BufferIsRecent == (Idle /\ ~anyAdded) => [i \in DOMAIN buffer |-> Key(buffer[i])] = LastN(gh.pre, Cap)
 C12_GlobalFields == \A d \in Dest : \A i \in DOMAIN offered[d] : TRUE   \* carried in m.g; compared on traces
 
 ---- (* C13: serializer failures are contained *)
 C13_FailedNotDelivered == \A d \in Dest : \A i \in DOMAIN offered[d] : Keys(d)[i] \notin gh.fail
-C13_FailureReports == Idle => \A d \in Dest : Healthy(d) =>
+C13_FailureReports == (Idle /\ "Abort" \notin dev) => \A d \in Dest : Healthy(d) =>
      /\ Cardinality({i \in DOMAIN offered[d] : Stream(d)[i].rep = "sf"}) = gh.nser
      /\ Cardinality({i \in DOMAIN offered[d] : Stream(d)[i].rep = "tb"}) = gh.ntb
 
